@@ -5,18 +5,15 @@
 -/
 import RenetVerif.Generated.Src.Slice
 import RenetVerif.Lemmas.SrcEquiv.Prims
+import RenetVerif.Lemmas.SrcEquiv.CommonRepr
 namespace RenetVerif.SrcEquiv
 open RenetVerif RenetVerif.RustSem
 
 /-! ## C. slice constructor -/
 section C
 open Src.renet.channel.slice_constructor
-abbrev SChannelError := Src.renet.error.ChannelError
 
 def reprSC (mid : Nat) (c : SliceCtor) : SliceConstructor := ⟨mid, c.numSlices, c.numReceived, c.received, toNats c.data⟩
-def reprCE : ChanErr → SChannelError
-  | .maxMemory => .ReliableChannelMaxMemoryReached
-  | .invalidSlice => .InvalidSliceMessage
 
 theorem sc_new_eq {ε} (mid n : Nat) (h : n * C.SLICE_SIZE < 2 ^ 64) :
     (SliceConstructor.new mid n : Res ε _) = .ok (reprSC mid (SliceCtor.new n)) := by
